@@ -9,7 +9,7 @@ STAT_NAMES = ["initiation_consumed", "initiation_bad_mac1", "initiation_aead_fai
               "transport_accepted", "transport_replayed_or_out_of_window", "transport_bad_tag",
               "transport_wrong_index_or_dead_session", "batch_with_several_elements", "tun_initiation", "tun_transport",
               "tun_staged_only", "uapi_endpoint", "steps_where_an_endpoint_moved", "confirming_element_released_staged",
-              "restart_down_up"]
+              "restart_down_up", "send_counter_over_rekey_limit", "tun_transport_and_rekey_initiation"]
 
 
 class Prop:
@@ -24,7 +24,7 @@ class Prop:
             "consumed initiations and responses, older timestamps, flood, corrupt static/timestamp, stranger; transport: fresh, jumps, "
             "in-window, replayed, behind the window, bad tag, unknown index, index of another session, previous session; batches mixing "
             "peers, sources and validity, with staged packets waiting for the confirming element; UAPI endpoint=; a TUN packet after "
-            "most steps shows where the next datagram goes; Device.Down/Up restarts followed by replays of earlier initiations, responses and transport messages from other addresses; one pass over the real StdNetBind on loopback per run; non-trivial = at least one endpoint moved and at least one datagram was "
+            "most steps shows where the next datagram goes; Device.Down/Up restarts followed by replays of earlier initiations, responses and transport messages from other addresses; crossed handshakes (peer re-initiates, device answer unused, device own initiation forced by VerifSetSendNonce completes) followed by transport under every earlier session from new addresses; one pass over the real StdNetBind on loopback per run; non-trivial = at least one endpoint moved and at least one datagram was "
             "rejected; distinct by plan content")
     assumptions = ["authenticity of each datagram is a construction descriptor (valid MAC1, which static key, AEAD opens, timestamp, "
                    "counter, session, index) produced by the harness's own protocol implementation; freshness (timestamp order, flood gap, "
